@@ -316,7 +316,8 @@ def run_lines(binary, lines, timeout=600, mem_kb=4 * 1024 * 1024, env=None):
     while i < n:
         chunk = lines[i:]
         data = ("\n".join(chunk) + "\n").encode()
-        cmd = "ulimit -v %d; exec %s" % (mem_kb, binary)
+        # (the extracted list functions are not tail recursive: a 100 000-octet payload needs more than the default 8 MiB of stack)
+        cmd = "ulimit -v %d; ulimit -s unlimited 2>/dev/null || ulimit -s 4000000 2>/dev/null; exec %s" % (mem_kb, binary)
         try:
             p = subprocess.run(["/bin/bash", "-c", cmd], input=data, stdout=subprocess.PIPE, stderr=subprocess.PIPE,
                                timeout=timeout, env=env)
